@@ -57,8 +57,14 @@ def gen(rng, tier, k=None):
         cfg['layers'][i] = layers[i][:3] + (0,)
     if rng.random() < 0.5:
         cfg['explicit_pipe_group'] = True
+    if k is not None and k % 7 == 5:
+        # stratum: inputs correlated across the model-parallel halves, small damping, clipping that binds, row-parallel layers:
+        # the per-rank partial sums <V, D> of a positive quadratic form then have both signs
+        P, D, M = 1, rng.choice([1, 2]), 2
+        cfg.update(P=P, D=D, M=M, correlated=True, damping=rng.choice([0.001, 0.01]), kl_clip=0.001, factor_decay=0.0625, batch=4)
+        cfg['layers'] = [('row', 2 * rng.randint(1, 2), rng.randint(1, 2), 0) for _ in range(rng.randint(1, 2))]
     hist = [['train', 1] for _ in range(rng.randint(1, 3))]
-    if rng.random() < 0.3:          # a damping schedule with inverses reused across steps: the CURRENT damping must be used (plain eigen path)
+    if rng.random() < 0.3 and not cfg.get('correlated'):          # a damping schedule with inverses reused across steps: the CURRENT damping must be used (plain eigen path)
         cfg['damping'] = ['table', [rng.choice([0.5, 0.25, 1.0, 2.0]) for _ in range(6)]]
         cfg['inv_update_steps'] = 2
         hist = [['train', 1] for _ in range(rng.randint(2, 4))]
@@ -104,6 +110,30 @@ def run(tier, seed, rng):
         probs, clipprobs, diffs = [], [], []
         trains = [i for i, e in enumerate(hist) if e[0] == 'train']
         clip_mp = cfg['kl_clip'] is not None and M > 1
+        if clip_mp and w.ok:
+            # the regime of the known finding D10 (clip scale from LOCAL shards).  What the code is known to do there is still checked, so
+            # that any OTHER deviation is reported: on every rank the final gradients are c_r * V_r with
+            # c_r = min(1, sqrt(kl / |lr^2 sum over the rank's own shards <V, D>|)), V_r from a twin run without clipping
+            kl_ = cfg['kl_clip']
+            wn = neoxrun.run(dict(cfg, kl_clip=None), hist, seed=seed + k, policy='rr')
+            if wn.ok:
+                for si, ev in enumerate(trains):
+                    for r in range(W):
+                        Vs, Ds, As = wn.results[r][ev]['after'], w.results[r][ev]['before'], w.results[r][ev]['after']
+                        s_r = 0.0
+                        for (vw, vb), (dw, db) in zip(Vs, Ds):
+                            s_r += float((vw.double() * dw.double()).sum()) * cfg['lr'] ** 2
+                            if vb is not None:
+                                s_r += float((vb.double() * db.double()).sum()) * cfg['lr'] ** 2
+                        c_r = 1.0 if s_r == 0.0 else min(1.0, (kl_ / abs(s_r)) ** 0.5)
+                        for li, ((vw, vb), (aw, ab)) in enumerate(zip(Vs, As)):
+                            sc = max(float(vw.abs().max()), 1e-12)
+                            e_ = float((aw - c_r * vw).abs().max()) / sc
+                            if vb is not None:
+                                e_ = max(e_, float((ab - c_r * vb).abs().max()) / max(float(vb.abs().max()), sc))
+                            if e_ > 1e-9:
+                                probs.append(f'step {si} rank {r} layer {li}: with clipping and model-parallel degree {M} the gradients are not min(1, sqrt(kl/|s_local|)) = {c_r:.6g} '
+                                             f'times the unclipped ones (local s = {s_r:.6g}, rel {e_:.2e}): a deviation beyond the known finding D10')
         for si, ev in enumerate(trains):
             for r in range(W):
                 p_, d_, m_ = neoxrun.coord(cfg, r)
